@@ -12,6 +12,7 @@ import CfVerif.Proofs.C13Led
 import CfVerif.Proofs.C13Loc
 import CfVerif.Proofs.C13QuatInt
 import CfVerif.Proofs.C13Hist
+import CfVerif.Proofs.C13Ring
 namespace CfVerif.C13
 open CfVerif CfVerif.C13.Spec
 
@@ -85,6 +86,15 @@ theorem gen_objects :
     Gen.C13.ledtWriteCalls = ["self.mem_handler.write(self, 0, bytearray(data), flush_queue=True)"] ∧
     Gen.C13.incStores = [] ∧
     Gen.C13.incCalls = ["self.receivedLocationPacket.call(pk)", "self._decode_lh_angle(data)"] := by decide
+
+/-- the write loops treat every LED / timing on its own: an iteration reads its own item only — no local carried in from
+before the loop or from an earlier iteration (a cache, a "previous" value), no object attribute, no helper beyond `int` /
+`bytearray`; the only outer name touched is the output being appended to -/
+theorem gen_led_loops :
+    Gen.C13.ledLoopCarried = [] ∧ Gen.C13.ledLoopAccumulators = ["data"] ∧ Gen.C13.ledLoopSelfReads = [] ∧
+    Gen.C13.ledLoopCalls = ["bytearray", "int"] ∧
+    Gen.C13.ledtLoopCarried = [] ∧ Gen.C13.ledtLoopAccumulators = ["data"] ∧ Gen.C13.ledtLoopSelfReads = [] ∧
+    Gen.C13.ledtLoopCalls = ["int"] := by decide
 
 /-! ## Half precision -/
 
@@ -265,6 +275,31 @@ theorem led_timing_black_white :
 example : ledWriteData [⟨255, 255, 255, 100⟩, ⟨0, 0, 0, 100⟩, ⟨128, 64, 32, 50⟩] = .ok [0xff, 0xff, 0, 0, 0x41, 0x02] := by decide
 example : ledBytes ⟨255, 255, 255, 1000⟩ = .error .valueError := by decide    -- intensity beyond 100: bytearray() refuses
 example : timingsWriteData [⟨5, 255, 0, 0, 3, true, 2⟩, ⟨0, 0, 0, 0, 0, false, 0⟩] = .ok [5, 0xf8, 0, 0x53, 0, 0, 0, 0] := by decide
+
+/-! ### the whole ring / sequence: a map over the items, no cross-item dependence -/
+
+/-- For EVERY ring content the written image is the concatenation of the per-LED encodings `ledBytes` (or the first
+per-LED exception): LED i's bytes do not depend on any other LED. -/
+theorem led_ring_is_map (ring : List Led) : ledWriteData ring = (ledBytesAll ring).map List.flatten :=
+  ledWriteData_is_map ring
+
+/-- For every ring of in-range LEDs — repeated colours at different intensities, gradients, anything — word i of the image
+is the RGB565 word of LED i (`Led.word` = the per-LED function of `led_rgb565`, for which monotonicity, black and white are
+proved), big-endian at bytes 2i, 2i+1. -/
+theorem led_ring_image (ring : List Led) (h : ∀ l ∈ ring, l.InRange) :
+    ledWriteData ring = .ok (ring.flatMap Led.bytes) ∧
+    ∀ k (hk : k < ring.length),
+      (ring.flatMap Led.bytes)[2 * k]? = some (UInt8.ofNat (ring[k].word / 256)) ∧
+      (ring.flatMap Led.bytes)[2 * k + 1]? = some (UInt8.ofNat (ring[k].word % 256)) :=
+  ⟨ledWriteData_inRange ring h,
+   fun k hk => flatMap_pair_getElem? (fun l : Led => (UInt8.ofNat (l.word / 256), UInt8.ofNat (l.word % 256))) ring k hk⟩
+
+/-- the timing sequence likewise: each timing contributes its own entry (or nothing when all-zero), then the terminator -/
+theorem led_timing_is_map (ts : List Timing) : timingInts ts = ts.flatMap timingEntry ++ Gen.C13.ledtTerminator :=
+  timingInts_is_map ts
+
+example : (⟨255, 255, 255, 100⟩ : Led).InRange ∧ (⟨255, 255, 255, 4⟩ : Led).InRange := by decide
+example : ledWriteData [⟨255, 255, 255, 4⟩, ⟨255, 255, 255, 100⟩, ⟨255, 255, 255, 4⟩] = .ok [0x08, 0x41, 0xff, 0xff, 0x08, 0x41] := by decide
 
 /-- One ring object over any history of colour/intensity changes and writes: a write changes nothing, so repeated writes
 send the same data, and the data of every write is `ledWriteData` of the state produced by the `set`/intensity operations
